@@ -749,7 +749,11 @@ func rulePrinters(p *Prog, r *Report) {
 				if !withinFn(fr.fn, fn) || callee.Pkg == nil || callee.Pkg.Pkg.Path() != "strconv" {
 					return
 				}
-				switch callee.Name() {
+				nm := callee.Name()
+				if strings.HasPrefix(nm, "Append") && len(a) > 1 {
+					nm, a = "Format"+strings.TrimPrefix(nm, "Append"), a[1:]
+				}
+				switch nm {
 				case "FormatInt", "FormatUint":
 					nfmt++
 					wantBase := int64(10)
@@ -837,7 +841,7 @@ func rulePrinters(p *Prog, r *Report) {
 		if okPos {
 			r.ok(rule, vk, p.Pos(fn.Pos()), "for every (name, position) of the variable map the name replaces the element text at that position")
 		} else {
-			r.bad(rule, vk, p.Pos(fn.Pos()), "the printer does not put each variable's name at the variable's own position")
+			r.unk(rule, vk, p.Pos(fn.Pos()), "the printer could not be evaluated on a node with variables, and it does not store each variable's name at the variable's own position in the way the fallback rule knows")
 		}
 	}
 	r.Floor(rule, 20)
@@ -912,6 +916,11 @@ func printsSML(p *Prog, fn *ssa.Function, f itemFormat) (detail string, decided,
 					}
 				}
 				return Val{}, false
+			}
+			// the same for a call in a helper the printer hands its elements to,
+			// and for the Append forms: the text of an element of unknown value
+			in.TextModel = func(c *ssa.Call, callee *ssa.Function, fr *frame) (string, bool) {
+				return "§", true
 			}
 		}
 		out := in.Run(fn, defaultArgs(fn), nil)
@@ -1217,10 +1226,16 @@ func printsVariables(p *Prog, fn *ssa.Function, f itemFormat) (detail string, de
 				}
 				return Val{}, false
 			}
+			in.TextModel = func(c *ssa.Call, callee *ssa.Function, fr *frame) (string, bool) {
+				return "§", true
+			}
 		}
 		out := in.Run(fn, defaultArgs(fn), nil)
 		rets := out.Frame.ReturnVals()
 		if len(in.Stuck) > 0 || len(rets) != 1 || rets[0][0].K != KStr || out.CanPanic {
+			if os.Getenv("SC_TRACE_PRINT") != "" {
+				fmt.Fprintf(os.Stderr, "printsVariables %s: stuck=%v rets=%v canpanic=%v\n", FnName(fn), in.Stuck, rets, out.CanPanic)
+			}
 			return "", false, false
 		}
 		wantText := fmt.Sprintf("<%s[3] %s>", f.SML, strings.Join(want, " "))
